@@ -191,7 +191,7 @@ def starting_circuits(ctx):
 
 
 def run(ctx):
-    ctx.mc("MC_CircuitDag", MC_CFG.format(maxops=3 if ctx.quick else 4, depth=4 if ctx.quick else 6), tag="3regs")
+    ctx.mc("MC_CircuitDag", MC_CFG.format(maxops=3 if ctx.quick else 4, depth=4 if ctx.quick else 6), tag="3regs", coverage=True)
     rng = ctx.rng
     traces, tid = [], 0
     steps = 40 if ctx.quick else 300
